@@ -49,6 +49,7 @@ type Case struct {
 	Loss      *sim.Loss    `json:"loss,omitempty"`
 	Blackout  [][2]int     `json:"blackouts_ms,omitempty"`
 	Seed      uint64       `json:"seed"`
+	WinKB     int          `json:"win_kb,omitempty"` // >0: small flow-control windows on both endpoints (initial = WinKB, max = 4x)
 }
 
 // GenUnit is the unit that generator exclusions are counted under.
@@ -154,6 +155,12 @@ func GenCase(t *rapid.T) Case {
 		c.Streams = append(c.Streams, s)
 	}
 	c.Datagrams = rapid.SampledFrom([]int{0, 0, 3, 12}).Draw(t, "dgrams")
+	c.WinKB = rapid.SampledFrom([]int{0, 0, 0, 2, 8, 32}).Draw(t, "win")
+	if c.WinKB > 0 && strings.HasPrefix(c.Client, "spec:") {
+		// a spec-driven client advertises the spec's windows but enforces Config's (C12 finding): keep Config at its defaults
+		vf.U(GenUnit).Excluded("C12/flow-control/window")
+		c.WinKB = 0
+	}
 	c.Faults = genFaults(t, 8)
 	if rapid.IntRange(0, 3).Draw(t, "lossy") == 0 {
 		from := rapid.IntRange(0, 1500).Draw(t, "loss_from")
@@ -342,6 +349,10 @@ func runCase(c Case, u *vf.Unit, trace *any) *vf.Verdict {
 			MaxIncomingStreams: 100, MaxIncomingUniStreams: 100}
 		if c.V2 {
 			q.Versions = []quic.Version{quic.Version2}
+		}
+		if c.WinKB > 0 {
+			q.InitialStreamReceiveWindow, q.MaxStreamReceiveWindow = uint64(c.WinKB)<<10, uint64(c.WinKB)<<12
+			q.InitialConnectionReceiveWindow, q.MaxConnectionReceiveWindow = uint64(c.WinKB)<<11, uint64(c.WinKB)<<13
 		}
 		return q
 	}
